@@ -481,6 +481,14 @@ the source expression. -/
 
 def wrapIf (b : Bool) (d : Doc) : Doc := if b then .group d else d
 
+/-- which of the context-sensitive shapes a `Doc` / an `Expr` is: 0 absent, 1 starred, 2 keyword,
+3 bare index list, 4 anything else -/
+def Doc.tag : Doc → Nat
+  | .absent => 0 | .starred _ => 1 | .keyword _ _ => 2 | .bare _ => 3 | _ => 4
+def Expr.tag : Expr → Nat
+  | .absent => 0 | .starred _ => 1 | .keyword _ _ => 2 | _ => 4
+
+
 mutual
 def toDocA (T : PrecTable) (pp : Nat) : AExpr → Doc
   | .name s => .atom s
@@ -550,6 +558,9 @@ def toDoc (T : PrecTable) (pp : Option Nat) : Expr → Doc
     | none => .junk "??".toList
   | .opaque t => .atom t
   | .unknown => .junk "??".toList
+  | .unlinked e =>
+    -- rendered as if at top level; (a starred / keyword / absent node cannot be spliced in: spelled as is)
+    if (toDoc T none e).tag = 4 then toDoc T none e else .junk (toDoc T none e).flatten
 def toDocList (T : PrecTable) (pp : Option Nat) : List Expr → List Doc
   | [] => []
   | x :: xs => toDoc T pp x :: toDocList T pp xs
@@ -595,6 +606,7 @@ def canon : Expr → Doc
   | .astor a => canonA a
   | .opaque t => .atom t
   | .unknown => .junk "??".toList
+  | .unlinked e => canon e
 def canonList : List Expr → List Doc
   | [] => []
   | x :: xs => canon x :: canonList xs
@@ -760,13 +772,6 @@ theorem joinSep_append (sep : List Char) (a b : List (List Char)) :
         simp only [List.cons_append, joinSep_cons_cons] at ih ⊢
         simp [ih]
 
-/-- which of the context-sensitive shapes a `Doc` / an `Expr` is: 0 absent, 1 starred, 2 keyword,
-3 bare index list, 4 anything else -/
-def Doc.tag : Doc → Nat
-  | .absent => 0 | .starred _ => 1 | .keyword _ _ => 2 | .bare _ => 3 | _ => 4
-def Expr.tag : Expr → Nat
-  | .absent => 0 | .starred _ => 1 | .keyword _ _ => 2 | _ => 4
-
 theorem tag_wrapIf (b : Bool) (d : Doc) (h : d.tag = 4) : (wrapIf b d).tag = 4 := by
   cases b
   · simpa [wrapIf] using h
@@ -796,6 +801,11 @@ theorem tag_toDoc (T : PrecTable) (pp : Option Nat) (e : Expr) : (toDoc T pp e).
     · simp [tag_toDocA, Expr.tag]
     · simp [Doc.tag, Expr.tag]
   | keyword a v => cases a <;> simp [toDoc, Doc.tag, Expr.tag]
+  | unlinked e =>
+    simp only [toDoc]
+    split
+    · next h => simp [h, Expr.tag]
+    · simp [Doc.tag, Expr.tag]
   | _ => simp [toDoc, Doc.tag, Expr.tag]
 
 theorem toDoc_absent_iff (T : PrecTable) (pp : Option Nat) (e : Expr) :
@@ -923,6 +933,10 @@ theorem toDoc_flatten (T : PrecTable) :
     cases h : renderA T T.highest a with
     | none => simp [Doc.flatten, flat]
     | some t => simp [flat, renderA_toDocA T a _ _ h]
+  | .unlinked e, pp => by
+    have ih := toDoc_flatten T e none
+    simp only [toDoc, compile]
+    split <;> simp [Doc.flatten, ih]
 theorem toDocList_flatten (T : PrecTable) :
     ∀ (xs : List Expr) (pp : Option Nat),
       Doc.flattenList (toDocList T pp xs) = (compileList T pp xs).map flat
@@ -1144,7 +1158,10 @@ guarantees (operand counts, equal list lengths, `*x` only as an element or argum
 in calls), it EXCLUDES the inputs on which the current colourizer is wrong:
   * a one-element tuple (also as subscript index),
   * an empty tuple as subscript index,
-  * a delegated node on which astor raised (`??`). -/
+  * a delegated node on which astor raised (`??`),
+  * a native operator expression (`+`, `not`, `and`, …) that was written as a STRING annotation and
+    spliced in without parent links (`unlinked`); any other unquoted string — a name, a subscript, a
+    comparison — is inside. -/
 def okTree (T : PrecTable) (star : Bool) : Expr → Bool
   | .name _ => true
   | .dotted _ => true
@@ -1170,6 +1187,7 @@ def okTree (T : PrecTable) (star : Bool) : Expr → Bool
   | .astor a => okA a
   | .unknown => false
   | .absent => false
+  | .unlinked e => (kidOf e).isNone && decide (e.tag = 4) && okTree T false e
 def okList (T : PrecTable) (star : Bool) : List Expr → Bool
   | [] => true
   | x :: xs => okTree T star x && okList T star xs
@@ -1486,6 +1504,18 @@ theorem derives_core (e : Expr) (pp : Option Nat) (n : Nat) (star : Bool)
     have ih := derives_core x (some LT.highest) 6 false hok.2
       (fun h => absurd h ((tag_of_ok LT false x hok.2).2.2 rfl)) (fits_highest 6 x)
     simp [toDoc, canon, parseDoc, ih]
+  | .unlinked e', hok, _, _ =>
+    simp only [okTree, Bool.and_eq_true, decide_eq_true_eq] at hok
+    obtain ⟨⟨hk, ht⟩, hok'⟩ := hok
+    have hfit' : fits LT none n e' = true := by
+      unfold fits
+      cases h : kidOf e' with
+      | none => rfl
+      | some k => simp [h] at hk
+    have ih := derives_core e' none n false hok' (fun h => by rw [ht] at h; exact absurd h (by decide)) hfit'
+    have htd : (toDoc LT none e').tag = 4 := by rw [tag_toDoc, ht]
+    simp only [toDoc, htd, if_true, canon]
+    exact ih
   | .astor a, hok, _, _ =>
     simp only [okTree] at hok
     have h := parseA_ok a LT.highest n hok (rel_highest n)
@@ -1568,6 +1598,7 @@ theorem derives_kws (ks : List Expr) (hok : okKws LT ks = true) :
   | .opaque _ :: _, hok => simp [okKws] at hok
   | .unknown :: _, hok => simp [okKws] at hok
   | .absent :: _, hok => simp [okKws] at hok
+  | .unlinked _ :: _, hok => simp [okKws] at hok
 termination_by sizeOf ks
 
 theorem derives_keys (ks : List Expr) (hok : okKeys LT ks = true) :
@@ -1717,6 +1748,25 @@ theorem tuple_kept_counterexample :
     render LT (.tuple [.starred a]) = "(*a)".toList ∧
     parseDoc 1 (toDoc LT none (.tuple [.starred a])) = none := by
   refine ⟨?_, ?_, ?_, ?_, ?_, ?_, ?_, ?_, ?_, ?_⟩ <;> first | decide +kernel | rfl
+
+/-- a string annotation under an operator: `"a | b" & c` is displayed as `a|b&c`, the text of
+`a | (b & c)` — the spliced-in sub-tree has no parent link, so no parentheses are written
+(`-"a + b"` → `-a+b`, `"a or b" and c` → `a or b and c` likewise); outside `okTree` -/
+theorem unstring_counterexample :
+    render LT (.binary .bitAnd (.unlinked (.binary .bitOr a b)) c) = "a|b&c".toList ∧
+    render LT (.binary .bitOr a (.binary .bitAnd b c)) = "a|b&c".toList ∧
+    render LT (.unary .usub (.unlinked (.binary .add a b))) = "-a+b".toList ∧
+    render LT (.boolop .and [.unlinked (.boolop .or [a, b]), c]) = "a or b and c".toList ∧
+    okTree LT false (.binary .bitAnd (.unlinked (.binary .bitOr a b)) c) = false := by
+  refine ⟨?_, ?_, ?_, ?_, ?_⟩ <;> decide +kernel
+
+/-- non-vacuity: the usual forward references (`"Foo" | None`, `Optional["a | b"]` where the
+subscript re-links everything below it) are inside `okTree` and keep their meaning -/
+example :
+    okTree LT false (.binary .bitOr (.unlinked (.name "Foo".toList)) (.constName .none)) = true ∧
+    render LT (.binary .bitOr (.unlinked (.name "Foo".toList)) (.constName .none)) = "Foo|None".toList ∧
+    render LT (.subscript (.name "Optional".toList) (.binary .bitOr a b)) = "Optional[(a|b)]".toList := by
+  refine ⟨?_, ?_, ?_⟩ <;> decide +kernel
 
 end examples
 
